@@ -73,6 +73,18 @@ void OnResume(std::uint64_t id, std::uint64_t time) {
                  static_cast<unsigned long long>(time & ((1ULL << 30) - 1)));
   }
 }
+// debugging aid (environment VRT_REPRO_OPS): every yaclib_std operation with the value it finds, as "O <kind> <value>"
+void OnOp(const yaclib::verif::Op& op) {
+  if (g_recording) {
+    const std::uint64_t v = op.peek != nullptr ? op.peek(op.obj) : 0;
+    // small values verbatim, anything that may be an address as "p"
+    if (v < 4096) {
+      std::fprintf(g_out, "O %d %llu\n", static_cast<int>(op.kind), static_cast<unsigned long long>(v));
+    } else {
+      std::fprintf(g_out, "O %d p\n", static_cast<int>(op.kind));
+    }
+  }
+}
 void OnInject(std::uint64_t count) {
   if (g_recording) {
     std::fprintf(g_out, "I %llu\n", static_cast<unsigned long long>(count - g_inject_base));
@@ -309,12 +321,18 @@ int ReproMain(int argc, char** argv) {
       g_out = std::fopen(argv[++i], "w");
     }
   }
+  // a lock-free push compares pointers: whether the allocator hands a freed address out again depends on the heap's
+  // history, which is not part of (program, seed, configuration) -- so no address is ever reused here
+  vrt::SetNoReuseHeap(true);
   auto& h = yaclib::verif::GetHooks();
   h = yaclib::verif::Hooks{};
   h.on_rand = &OnRand;
   h.on_pick = &OnPick;
   h.on_resume = &OnResume;
   h.on_inject = &OnInject;
+  if (std::getenv("VRT_REPRO_OPS") != nullptr) {
+    h.begin_op = &OnOp;
+  }
   yaclib::SetFaultFrequency(freq);
   yaclib::SetFaultSleepTime(sleep);
   yaclib::fiber::SetFaultRandomListPick(width);
